@@ -777,6 +777,25 @@ func runResumption(c *engine.Ctx, backend string, wrap bool, seq int) {
 	b := n.Creds.CertificateBundles[0]
 	protos := append(world.AuthProtos(req), world.CertPref(curID))
 	sni := fmt.Sprintf("resume-%d.example", seq)
+	// a peer that replays the node's request in a ClientHello and hangs up (FIN) before its certificate flight:
+	// the server's handshake ends without any proof of possession, whatever the protocol it had already selected
+	for k := 0; k < 3; k++ {
+		ac := advCase{Kind: "hangup-after-hello", Storage: backend, Identity: fmt.Sprint(k)}
+		rec, cres, ok := runClient(c, lw, world.ClientSpec{Protos: protos, SNI: sni, HangUpAfterHello: true})
+		if !ok {
+			return
+		}
+		r.Eval(engine.J(ac), true)
+		switch {
+		case rec.Panic != nil:
+			r.Violation("panic-in-accept:"+engine.LibraryFrame(rec.Stack), fmt.Sprintf("Accept panicked: %v", rec.Panic), ac)
+		case rec.Authenticated():
+			r.Violation("unauthorized-auth:possession=false,hung-up-after-hello", "a peer that sent a ClientHello replaying a registered node's request and then ended the stream, without certificate or proof of possession, was returned by Accept as a connection negotiated as the node-authentication protocol", ac)
+		default:
+			r.Count("hangup_after_hello_not_authenticated", 1)
+		}
+		finishConn(rec, cres)
+	}
 	for round, variant := range []string{"no-certificate", "no-certificate-after-record-removed"} {
 		cache := tls.NewLRUClientSessionCache(8)
 		honest := world.ClientSpec{Protos: protos, Chain: [][]byte{b.CertificateDer, b.CaCertificateDer}, Signer: n.K.Priv, SNI: sni, Sessions: cache}
@@ -1363,6 +1382,7 @@ func runTLSAdv(c *engine.Ctx) engine.Result {
 		runResumption(c, []string{world.Inmem, world.File, world.StoreOnce}[i%3], i%2 == 1, i)
 	}
 	r.Require("resumption:keyless_peer_with_ticket_rejected", int64(c.Pick(6, 24)))
+	r.Require("hangup_after_hello_not_authenticated", int64(c.Pick(9, 36)))
 
 	{
 		w := newAdvWorld("normal", world.Inmem)
